@@ -14,6 +14,7 @@ import (
 	"syscall"
 
 	"github.com/github/go-spdx/v2/spdxexp"
+	"github.com/github/go-spdx/v2/spdxexp/spdxlicenses"
 
 	"verif/mon/internal/ev"
 	"verif/mon/internal/gen"
@@ -274,8 +275,9 @@ func runC13(c *Ctx, phase string) {
 		c.Floor("fn_pairs_overlapped", 9)
 		c.Floor("shared_slices_used_concurrently", int64(len(w.lists)))
 		c.Floor("immutability_checks", int64(len(w.calls)))
-		c.Floor("silent_children", int64(1+c.Pick(6, 40)+8+4))
+		c.Floor("silent_children", int64(1+c.Pick(6, 40)+8+1+4))
 		c.Floor("reuse_cases", int64(c.Pick(4000, 40000)))
+		c.Floor("results_after_table_clobbering", int64(len(w.calls)))
 		c.Floor("churn_results_compared", int64(c.Pick(12000, 60000)))
 		r0 := make([]string, len(w.calls))
 		for i, cl := range w.calls {
@@ -330,6 +332,8 @@ func runC13(c *Ctx, phase string) {
 		}
 	case "reuse":
 		runC13Reuse(c, w)
+	case "tables":
+		runC13Tables(c, w)
 	case "conc":
 		runC13Conc(c, w)
 	case "strace":
@@ -537,6 +541,88 @@ func runC13Reuse(c *Ctx, w *c13Workload) {
 	c.c13CheckMutation(w, "during the reuse/churn phase")
 }
 
+// clobberTables fetches the exported tables of package spdxlicenses and overwrites everything reachable from the
+// returned values (the caller owns what a function returns).
+func clobberTables() {
+	for _, l := range [][]string{spdxlicenses.GetLicenses(), spdxlicenses.GetDeprecated(), spdxlicenses.GetExceptions()} {
+		for i, j := 0, len(l)-1; i < j; i, j = i+1, j-1 {
+			l[i], l[j] = l[j], l[i]
+		}
+		for i := range l {
+			if i%3 == 0 {
+				l[i] = "CLOBBERED-BY-CALLER"
+			}
+		}
+	}
+	t := spdxlicenses.LicenseRanges()
+	for _, fam := range t {
+		for i, j := 0, len(fam)-1; i < j; i, j = i+1, j-1 {
+			fam[i], fam[j] = fam[j], fam[i]
+		}
+		for _, step := range fam {
+			for k := range step {
+				step[k] = "CLOBBERED-" + step[k]
+			}
+		}
+	}
+	for i, j := 0, len(t)-1; i < j; i, j = i+1, j-1 {
+		t[i], t[j] = t[j], t[i]
+	}
+}
+
+func tablesFingerprint() string {
+	var b strings.Builder
+	for _, l := range [][]string{spdxlicenses.GetLicenses(), spdxlicenses.GetDeprecated(), spdxlicenses.GetExceptions()} {
+		b.WriteString(strings.Join(l, ","))
+		b.WriteByte('|')
+	}
+	for _, fam := range spdxlicenses.LicenseRanges() {
+		for _, step := range fam {
+			b.WriteString(strings.Join(step, ","))
+			b.WriteByte(';')
+		}
+		b.WriteByte('/')
+	}
+	return b.String()
+}
+
+// runC13Tables: what the exported table functions return belongs to the caller. After the caller has overwritten every
+// returned slice, the tables returned next and every result of the workload must be what they were before.
+func runC13Tables(c *Ctx, w *c13Workload) {
+	r0 := loadR0(c, w)
+	before := tablesFingerprint()
+	for round := 0; round < 3; round++ {
+		clobberTables()
+		if after := tablesFingerprint(); after != before {
+			c.Violation("tables-aliased", "C13.tables", C13Case{Kind: "tables-aliased"},
+				"after the caller overwrote the slices returned by GetLicenses/GetDeprecated/GetExceptions/LicenseRanges, the next call returns different tables (first difference at byte %d)", firstDiff(before, after))
+			return
+		}
+		for i, cl := range w.calls {
+			if (i+round)%2 != 0 {
+				continue
+			}
+			got := w.exec(cl)
+			c.evals++
+			c.Inc("results_after_table_clobbering")
+			if got != r0[i] {
+				c.c13Differs(w, i, r0[i], got, "after the caller overwrote the slices returned by the exported table functions")
+				return
+			}
+		}
+	}
+	c.Distinct(gen.HashStr("tables-clobber"))
+}
+
+func firstDiff(a, b string) int {
+	for i := 0; i < len(a) && i < len(b); i++ {
+		if a[i] != b[i] {
+			return i
+		}
+	}
+	return imin(len(a), len(b))
+}
+
 var markerFd = -1
 
 // marker makes a write(2) that is visible in the strace log (to /dev/null).
@@ -604,8 +690,31 @@ func runC13Conc(c *Ctx, w *c13Workload) {
 			}
 		}(g)
 	}
+	stop := make(chan struct{})
+	var cw sync.WaitGroup
+	for k := 0; k < 2; k++ {
+		cw.Add(1)
+		go func() {
+			defer cw.Done()
+			n := 0
+			for {
+				select {
+				case <-stop:
+					return
+				default:
+				}
+				clobberTables()
+				n++
+				if n%4 == 0 {
+					runtime.Gosched()
+				}
+			}
+		}()
+	}
 	close(start)
 	wg.Wait()
+	close(stop)
+	cw.Wait()
 	c.end()
 	// merge (monitor state was per goroutine; merged at quiescence)
 	var spans []callSpan
